@@ -891,5 +891,74 @@ def ordered_label_comparison(chk, rule: str, fn: FuncInfo, state_attrs: tuple[st
                 ordered.append(c)
     ok = bool(ordered) and not setlike
     node = (setlike or ordered or [fn.node])[0]
+    # ... of the LABELS: `a.equals(b)` / `a.identical(b)` on coordinate DataArrays also compares the scalar coordinates and
+    # attributes attached to them (and the names), so data that differ from the fitted data in metadata only are refused
+    for c in ordered:
+        if isinstance(c, ast.Call) and isinstance(c.func, ast.Attribute) and c.func.attr in ("equals", "identical"):
+            opnds = [c.func.value] + list(c.args)
+
+            def labels_only(e) -> bool:
+                t = norm(e)
+                return ".indexes[" in t or "to_index()" in t or t.endswith(".values") or t.endswith(".data") or any(
+                    any((o.kind in ("method", "arg") and o.name.split(".")[-1] == "to_index") or (o.kind == "attr" and o.name in ("indexes", "values", "data")) for o in p.ops)
+                    for p in ff.paths(e, spine_only=True))
+
+            chk.check(all(labels_only(e) for e in opnds), rule + ".labels", fn, c, construct=f"{fn.qualname.split('.')[-1]}: the comparison is made on index labels",
+                      why=f"`{norm(c)[:70]}` compares whole coordinate arrays: scalar coordinates and attributes attached to them take part, so new data that differ from the "
+                          "fitted data only in such metadata (another ensemble member selected, a units attribute) are refused although they share the feature layout")
     chk.check(ok, rule, fn, node, construct=f"{fn.qualname.split('.')[-1]}: labels of the data compared in order with those recorded at fit",
               why=why + (f" (order-insensitive comparison `{norm(setlike[0])[:70]}`)" if setlike else " (no order-sensitive comparison of the data's labels with the recorded ones found)"))
+
+
+# ---------------------------------------------------------------------------------------------------------------------
+# cut-offs on quantities that carry the units of the data are relative
+def absolute_cutoffs(chk, rule: str, why_tail: str) -> None:
+    """<rule>: a comparison that separates 'zero' from 'non-zero' values of an array computed from the data (singular values,
+    eigenvalues, norms ...) against the machine epsilon alone is an ABSOLUTE threshold: the same data expressed in other
+    units (multiplied by 1e-8) falls below it and directions / modes are silently dropped.  The threshold must be scaled by
+    a quantity computed from the same data (``eps * s.max()``)."""
+    pm = chk.pm
+    n = 0
+    for fn in pm.functions.values():
+        src = norm(fn.node)
+        if "finfo" not in src:
+            continue
+        ff = FuncFacts.of(fn)
+        params = {p for p in fn.params if p not in ("self", "cls")}
+
+        def through_dtype(p) -> bool:
+            return any((o.kind == "attr" and o.name == "dtype") or (o.kind == "arg" and o.name.split(".")[-1] in ("finfo", "iinfo")) for o in p.ops)
+
+        def from_param(e, values_only: bool = False) -> bool:
+            for p in ff.paths(e, spine_only=False):
+                if values_only and through_dtype(p):
+                    continue  # only the data TYPE of the array is used
+                if p.atom.kind == "param" and p.atom.name in params:
+                    return True
+            if values_only:
+                return False
+            # values returned by a call that was fed a parameter (U, s, V = svd.fit_transform(C))
+            for p in ff.paths(e, spine_only=True):
+                calls = [p.atom.node] if p.atom.kind == "call" and isinstance(p.atom.node, ast.Call) else []
+                calls += [o.node for o in p.ops if isinstance(getattr(o, "node", None), ast.Call)]
+                for cl in calls:
+                    for a in list(cl.args) + [k.value for k in cl.keywords]:
+                        if any(q.atom.kind == "param" and q.atom.name in params for q in ff.paths(a, spine_only=False)):
+                            return True
+            return False
+
+        def is_eps_only(e) -> bool:
+            has_eps = any(isinstance(x, ast.Attribute) and x.attr in ("eps", "tiny", "resolution") and isinstance(x.value, ast.Call) and (dotted(x.value.func) or "").endswith("finfo")
+                          for x in ast.walk(inline_locals(ff, e)))
+            return has_eps and not from_param(e, values_only=True)
+
+        for c in walk_no_nested(fn.node):
+            if not (isinstance(c, ast.Compare) and len(c.ops) == 1 and isinstance(c.ops[0], (ast.Gt, ast.GtE, ast.Lt, ast.LtE))):
+                continue
+            l, r = c.left, c.comparators[0]
+            for a, b in ((l, r), (r, l)):
+                if is_eps_only(a) and from_param(b):
+                    n += 1
+                    chk.check(False, rule, fn, c, construct=f"{fn.qualname}: cut-off `{norm(c)[:60]}` is relative to the data",
+                              why=f"`{norm(c)[:80]}` compares values computed from the data with the machine epsilon alone: " + why_tail)
+    chk.ok(rule, "xeofs", None, construct=f"<absolute machine-epsilon cut-offs on data-derived values found: {n}>", nontrivial=False)
